@@ -34,5 +34,10 @@ meta = {
     "what_i_ran": f"tools/try_seeded.sh in a scratch worktree of /repo (git apply patch.diff; go build/vet; go test ./...; demo with/without; VERIF_REPO=<worktree> bin/verif check <id> --tier {tier}); worktree removed afterwards",
     "checks": res, "check_output": details[:12],
 }
+if os.path.exists(f"{d}/meta.json"):
+    old = json.load(open(f"{d}/meta.json"))
+    for k, v in old.items():
+        if k not in meta or (k in ("needs_to_manifest", "demo") and not needs and demo == "-"):
+            meta[k] = v
 json.dump(meta, open(f"{d}/meta.json", "w"), indent=1)
 print("kept in", d)
